@@ -103,7 +103,7 @@ def run(v) -> None:
     def one(n, c, nbits, k, mode, gulp, start, nsamps, skip, kind):
         names, files, vals, split, fil = get_set(n, c, nbits, k, mode)
         ev = record_plan(fil, gulp, start, nsamps, skip)
-        traces.append({"hdr": {"files": files, "nbits": nbits, "nchans": c, "vals": vals, "N": n, "gulp": gulp,
+        traces.append({"hdr": {"files": files, "nbits": nbits, "nchans": c, "vals": vals, "novals": False, "N": n, "gulp": gulp,
                                "start": start, "nsamps": nsamps, "skip": skip},
                        "ev": ev, "kind": kind,
                        "plan": {"nbits": nbits, "nchans": c, "split": split, "N": n, "gulp": gulp, "start": start,
@@ -162,6 +162,9 @@ def run(v) -> None:
 
     tracecheck.validate_total("Trace_ReadPlan", traces, on_reject, verdict=v, label="read_plan executions", chunk=1500)
     v.traces += len(traces)
+    if not quick:
+        from .. import suite_traces
+        v.traces += suite_traces.run(v)
     multi = [t for t in traces if sum(1 for e in t["ev"] if e["e"] == "yield") >= 2 and t["plan"]["skip"] > 0]
     for t in (multi[:1] + traces[:1]):
         v.sample({"plan": t["plan"], "events": [{k: e[k] for k in e if k != "vals"} | {"vals": e.get("vals", [])[:12]}
